@@ -360,6 +360,46 @@ pub fn nonsingular_in_value_position() -> Vec<String> {
     v
 }
 
+/// a blank at every inner position of number literals, indices and slice bounds (a number is one
+/// token: no blank may stand inside it)
+pub fn blanks_inside_numbers() -> Vec<String> {
+    let nums = ["1e2", "25E3", "1E+2", "-3e1", "1.5", "-0.5", "1.5e-2", "12", "-12", "-0", "100.0"];
+    let mut v = vec![];
+    for n in nums {
+        let cs: Vec<char> = n.chars().collect();
+        for pos in 1..cs.len() {
+            for b in [" ", "\t", "\n", "\r"] {
+                let broken: String = cs[..pos].iter().collect::<String>() + b + &cs[pos..].iter().collect::<String>();
+                for t in ["$[?@.a == {}]", "$[?{} < @.a]", "$[?length(@.a) == {}]", "$[?@.a == 1 && @.b >= {}]"] {
+                    v.push(t.replace("{}", &broken));
+                }
+                if !n.contains('.') && !n.contains('e') && !n.contains('E') {
+                    for t in ["$[{}]", "$[{}:]", "$[:{}]", "$[::{}]", "$[0, {}]", "$[?@[{}] == 1]"] {
+                        v.push(t.replace("{}", &broken));
+                    }
+                }
+            }
+        }
+    }
+    v
+}
+
+/// every function result as an argument of every function, at every argument position, in a
+/// comparison and as a test (the recognisers decide which combinations are well-typed)
+pub fn function_results_as_arguments() -> Vec<String> {
+    let inner = ["length(@.a)", "count(@.*)", "value(@.a)", "match(@.a, 'x')", "search(@.a, 'x')", "match(@.a, @.b)", "count(@[?@.a])", "value(@..a)"];
+    let mut v = vec![];
+    for i in inner {
+        for t in [
+            "$[?length({}) == 1]", "$[?count({}) == 1]", "$[?value({}) == 1]", "$[?match({}, 'x')]", "$[?match(@.a, {})]", "$[?search({}, 'x')]", "$[?search(@.a, {})]", "$[?1 == count({})]", "$[?length(value({})) == 1]", "$[?count({})]", "$[?value({})]",
+            "$[?{}]", "$[?!{}]", "$[?{} == true]", "$[?{} == 1]", "$[?@.a && {}]", "$[?@[?count({}) == 1]]",
+        ] {
+            v.push(t.replace("{}", i));
+        }
+    }
+    v
+}
+
 /// number literals with long digit runs: integer parts of 17..30 digits before a fraction or
 /// exponent, 19..45 significant digits, long zero runs, big exponents that stay finite
 pub fn long_number_literal_queries() -> Vec<String> {
